@@ -1,8 +1,7 @@
 SPECIFICATION Spec
 CONSTANTS
   Paths = {"a", "b", "d", "d/x"}
-  Rounds = 4
-  MaxEdits = 3
+  EditPlan <- Plan3333
   Twin = FALSE
   Modes = {"inc", "incskip", "force"}
   Emit = TRUE
